@@ -84,13 +84,14 @@ structure It where
   reqs   : List Req       -- requests sent on behalf of this iterator
   deriving Repr
 
-/-- nextIter.fetch(): runs once -/
+/-- nextIter.fetch(): runs once; both callers (the page switch in Scan, the prefetch trigger in Scan)
+    come after Scan's `iter.err != nil` test -/
 def force (ppOf : Int → Nat → Nat) (e : Env) (it : It) : It × Env :=
-  match it.pre, it.cur.next with
-  | none, some n =>
+  match it.cur.err, it.pre, it.cur.next with
+  | none, none, some n =>
     let r := sessExec ppOf e it.rest n.qry
     ({ it with pre := some r.1.iter, rest := r.1.rest, reqs := it.reqs ++ r.1.reqs }, r.2)
-  | _, _ => (it, e)
+  | _, _, _ => (it, e)
 
 /-- Iter.Scan: a row of the current page, or the page switch `*iter = *iter.next.fetch()` and again
     (the recursion ends because every switch consumes a reply; `k` is fuel) -/
@@ -143,6 +144,18 @@ inductive Step where
   | prefetched (i : Nat)          -- (scheduler) the asynchronous prefetch of iterator i's next page runs now
   deriving Repr
 
+/-- the query that `q.Iter()` / `q.WithContext(c).Iter()` executes -/
+def iterQry (obj : Qry) : Option (Option Nat) → Qry
+  | none => obj
+  | some c => { obj with ctx := c }
+
+/-- Query.Iter(): the first page is fetched at once; the iterator remembers nothing of the object but
+    what executeQuery copied -/
+def startIter (srv : Nat → Bytes → List Reply) (ppOf : Int → Nat → Nat) (e : Env) (q : Qry) : It × Env :=
+  let sc := srv q.ident q.pageState
+  let r := sessExec ppOf e sc q
+  ({ snap := q, script := sc, cur := r.1.iter, rest := r.1.rest, pre := none, out := [], reqs := r.1.reqs }, r.2)
+
 def step (srv : Nat → Bytes → List Reply) (ppOf : Int → Nat → Nat) (w : World) : Step → World
   | .setIdent n => { w with obj := { w.obj with ident := n } }
   | .bind n => { w with obj := { w.obj with ident := n, pageState := [] } }
@@ -155,13 +168,8 @@ def step (srv : Nat → Bytes → List Reply) (ppOf : Int → Nat → Nat) (w : 
   | .spec n => { w with obj := { w.obj with spec := n } }
   | .reset q => { w with obj := q }
   | .iter c =>
-    let q : Qry := match c with
-      | none => w.obj
-      | some c => { w.obj with ctx := c }
-    let sc := srv q.ident q.pageState
-    let r := sessExec ppOf w.env sc q
-    { w with its := w.its ++ [{ snap := q, script := sc, cur := r.1.iter, rest := r.1.rest, pre := none, out := [], reqs := r.1.reqs }],
-             env := r.2 }
+    let r := startIter srv ppOf w.env (iterQry w.obj c)
+    { w with its := w.its ++ [r.1], env := r.2 }
   | .scan i n =>
     match w.its[i]? with
     | none => w
